@@ -247,9 +247,46 @@ def arr_method(I, ref, n, args, kw, st, node):
 
 
 # ----------------------------------------------------------------------------- repo functions
+def construct_record(I, rel, fname, args, kw, st, node):
+    """Instantiate a plain record class of the repo: a fresh object whose fields are the constants its __init__ assigns."""
+    from .interp import load_module
+    src, tree = load_module(rel)
+    cls = None
+    for n in tree.body:
+        if isinstance(n, ast.ClassDef) and n.name == fname:
+            cls = n
+    if cls is None:
+        return None
+    init = None
+    for n in cls.body:
+        if isinstance(n, ast.FunctionDef) and n.name == "__init__":
+            init = n
+    if args or kw or init is None or len(init.args.args) != 1:
+        raise ToolLimit("constructor %s(...) with arguments (line %s)" % (fname, node.lineno))
+    fields = {}
+    for stmt in init.body:
+        if (isinstance(stmt, ast.Assign) and len(stmt.targets) == 1 and isinstance(stmt.targets[0], ast.Attribute)
+                and isinstance(stmt.targets[0].value, ast.Name) and stmt.targets[0].value.id == "self" and isinstance(stmt.value, ast.Constant)):
+            fields[stmt.targets[0].attr] = V.num_const(stmt.value.value)
+        elif isinstance(stmt, ast.Expr) and isinstance(stmt.value, ast.Constant):
+            continue
+        else:
+            raise ToolLimit("constructor %s: __init__ is not a list of constant field assignments" % fname)
+    oid = I.ctx.new_oid()
+    st.heap[oid] = ObjRec(fname, fields, name="%s#%d" % (fname, oid), lazy=False, fresh=True)
+    return Ref(oid)
+
+
 def repo_call(I, name, args, kw, st, node):
     rel, fname = I.ctx.imports[name]
     reg = I.ctx.registry
+    if reg.lookup(rel, fname) is None:
+        try:
+            find_function(rel, fname)
+        except ToolLimit:
+            r = construct_record(I, rel, fname, args, kw, st, node)
+            if r is not None:
+                return r
     c = reg.lookup(rel, fname)
     inline = I.ctx.contract.options.get("inline", ())
     if c is not None and fname not in inline:
